@@ -195,7 +195,6 @@ package gohlslib
 //@   props C07 C08
 //@   role writer
 //@   nosafety
-//@   noframe
 //@   nocallpre
 //@   requires held(s.mutex)
 //@   requires segsOK(s.segments) && (s.nextSegment != nil ==> (ref(s.nextSegment) != 0 && (isF(s.nextSegment) || isM(s.nextSegment))))
